@@ -102,7 +102,7 @@ def _hashable(k):
 
 
 # ----------------------------------------------------------------------------------------------- verification of one contract
-def verify_contract(qn, timeout_ms):
+def verify_contract(qn, timeout_ms, only_variant=None):
     """-> plain-data dict: obligations [(name, kind, status, solver_s, model/repr)], paths, faults, assumptions"""
     from .engine import Engine, discharge, PathEnd
     from .interp import Interp, PyRaise
@@ -122,6 +122,8 @@ def verify_contract(qn, timeout_ms):
     variants = con.variants or [{}]
     t_start = time.time()
     for vi, variant in enumerate(variants):
+        if only_variant is not None and vi != only_variant:
+            continue
         eng = Engine()
         obs = []
 
@@ -167,6 +169,11 @@ def verify_contract(qn, timeout_ms):
                         except Exception:
                             m[pname] = "?"
                 rec["model"] = m
+                from .contracts import Const as _Const
+                for k, sh in variant.items():
+                    if isinstance(sh, _Const):
+                        pyvals.setdefault(k, sh.value)
+                        m.setdefault(k, repr(sh.value))
                 if vals_ok and not any("." in k for k in pyvals):
                     try:
                         rec["replay"] = replay_model(program, con, f, node, pyvals)
@@ -296,7 +303,7 @@ def _run_one(ip, path, con, f, node, variant, vi):
         elif isinstance(o, LList):
             ip.modifies_ok.add(id(o))
     if con.requires is not None:
-        path.assume(clause_bool(ip, con.requires, env, f"{qn}#requires"))
+        path.assume(clause_bool(ip, con.requires, env, f"{qn}#requires", mode="assume"))
     old = LDict([(C(k), v) for k, v in env.items()])
     try:
         if "**" in kwargs or any(type(a).__name__ == "StarArgs" for a in args):
@@ -354,9 +361,9 @@ def _call_with_symbolic_star(ip, f, node, env):
 
 # ----------------------------------------------------------------------------------------------- property level
 def _worker(args):
-    qn, timeout_ms = args
+    qn, vi, timeout_ms = args
     try:
-        r = verify_contract(qn, timeout_ms)
+        r = verify_contract(qn, timeout_ms, vi)
     except Exception:
         return {"qualname": qn, "obligations": [], "paths": 0, "fault": traceback.format_exc(), "assumptions": [],
                 "unsupported": None, "segment": None, "inlined": [], "contract_calls": []}
@@ -373,8 +380,25 @@ def run_property(prop, tier, seed):
     timeout_ms = 10000 if tier == "quick" else 60000
     t0 = time.time()
     ctx = mp.get_context("fork")
-    with ctx.Pool(min(16, len(mine))) as pool:
-        results = pool.map(_worker, [(qn, timeout_ms) for qn in mine], chunksize=1)
+    tasks = []
+    for qn in mine:
+        nv = len(contracts[qn].variants or [{}])
+        tasks += [(qn, vi if nv > 1 else None, timeout_ms) for vi in range(nv)]
+    with ctx.Pool(min(16, len(tasks))) as pool:
+        parts = pool.map(_worker, tasks, chunksize=1)
+    merged = {}
+    for r in parts:
+        m = merged.get(r["qualname"])
+        if m is None:
+            merged[r["qualname"]] = r
+            continue
+        m["obligations"] += r["obligations"]
+        m["paths"] += r["paths"]
+        for k in ("assumptions", "inlined", "contract_calls"):
+            m[k] = sorted(set(m[k]) | set(r[k]))
+        m["fault"] = m["fault"] or r["fault"]
+        m["unsupported"] = m["unsupported"] or r["unsupported"]
+    results = [merged[qn] for qn in mine]
     return summarise(prop, tier, results, time.time() - t0, contracts)
 
 
